@@ -1,7 +1,7 @@
 ID = "C20"
 LEVEL = "proof"
-COQ_TARGETS = ["Props/Properties_C20.vo", "Extract/ExtractText.vo"]
-PROPS_FILES = ["Props/Properties_C20.v"]
+COQ_TARGETS = ["Props/Properties_C20.vo", "Props/Properties_C20_total.vo", "Extract/ExtractText.vo"]
+PROPS_FILES = ["Props/Properties_C20.v", "Props/Properties_C20_total.v"]
 RUNS = [
     dict(name="quote", harness="c20", driver="text", model_ml="text_model", harness_args=["-part", "quote"]),
     dict(name="render", harness="c20", driver="text", model_ml="text_model", harness_args=["-part", "render"]),
@@ -168,7 +168,12 @@ LEVEL_TEXT = ("Proof (Coq, closed under the global context) about hand-written m
               "(slot_value_eq_accessor, shown_struct_via_accessors); after ANY history of Encode / EncodeList / UseRegistry "
               "calls on one encoder, Encode and EncodeList write what a fresh encoder on the current registry writes. "
               "Scope: one cached schema message per encoder (all types in one schema file); statements about text are "
-              "conditional on success (totality of the walk is proved only for structs without struct/list/group fields). "
+              "conditional on success; totality (C20_render_total_partial, C20_encode_total_partial): for all schemas with acyclic "
+              "groups whose list-typed slots have pointer-free defaults - nested structs, lists of lists, groups, unions, "
+              "recursive and mutually recursive types - and ALL stored values, fuel >= (depth v + |SS|*(DD+1))*(G+2)+G+1 "
+              "gives text or an enumerated error, never OutOfFuel (C20_render_faithful_total_partial: then the text reads "
+              "back). Whole output (C20_output_printable, C20_output_quotes_balanced; print level incl. float tokens): every "
+              "byte is printable ASCII and every quote belongs to a literal produced by the quoting function. "
               "The models are tied to the Go code by differential runs (extracted OCaml vs Go, byte for byte, incl. the exact "
               "remaining budget of the cached schema message) and the text is compared with the GENERATED accessors of "
               "aircraftlib on well-kinded, wrong-kinded, upgraded and hostile inputs.")
@@ -179,9 +184,15 @@ LEVEL_NOTE = ("Gaps, in plain words. (1) 'Same field values as the generated acc
               "defaults until fix cdd3c4b (as-found variant: shows_accessor_value_refuted). (2) Floats: strconv 'g' is an "
               "oracle; parse_render excludes float types; history independence holds for all types. (3) 'Well-formed text' "
               "for the whole output is the statement that it parses with TextSpec.parse_text (float-free fragment); "
-              "printable-ASCII is proved for string literals, not stated for the whole output (field/enumerant names are "
-              "identifiers by premise). (4) Totality: C20_render_total_flat_partial only; nested / recursive types rest on the "
-              "hostile and recursive-type runs (pre-fix divergence: render_total_refuted, render_cycle3_refuted). (5) A failed "
+              "printable ASCII and the quote structure of the WHOLE output are now theorems (C20_output_printable, "
+              "C20_output_quotes_balanced) for float-free schemas with identifier names; with floats only at print level under "
+              "the premise that float tokens are printable non-quote bytes. (4) Totality: C20_render_total_partial covers "
+              "nested / recursive / mutually recursive types with an explicit fuel bound, but (a) requires list-typed slots to "
+              "have pointer-free defaults - for struct elements a premise is necessary: C20_render_listdefault_refuted shows "
+              "struct L { l :List(L) = [()] } diverges on the fixed model; marshal.go has no guard in its list-default branch, "
+              "so this is a probable stack overflow of the Go code that was NOT reproduced on the real code; (b) the inputs "
+              "giving Err are described in docs/C20.md but not characterised by theorem, so the unconditional parse_render "
+              "(C20_render_faithful_total_partial) keeps an error alternative. (5) A failed "
               "schema read is Err in the model where Go may drop the error and write truncated text (unreachable under the "
               "fixed cache: budget reset to 2^64-1 at every lookup). (6) Decimal printing is Coq's Z.to_int. (7) The value "
               "message's own traversal budget is reset by the harness before every Encode. "
